@@ -134,6 +134,10 @@ Theorem nested_branch_loses_value_refuted :
   exists prog sc, run_S 100 false prog sc = ([], OValue (VNum 1)) /\ run_I 1000 false prog sc = ([], OValue VUndef).
 Proof. exact ProofsI.nested_branch_loses_value_refuted. Qed.
 
+Theorem branch_in_breaking_finally_refuted :
+  exists prog sc, run_S 100 true prog sc = ([EEv 1; EEv 2], OValue VUndef) /\ run_I 1000 true prog sc = ([EEv 2], OValue VUndef).
+Proof. exact ProofsI.branch_in_breaking_finally_refuted. Qed.
+
 (* uncatchable_runs_nothing on I (full, since fix 22853aa of finding F12): for EVERY VM state, try stack and
    payload, unwinding an uncatchable error emits no event *)
 Theorem uncatchable_runs_nothing : forall p fs st,
@@ -179,6 +183,7 @@ Print Assumptions pending_return_value_refuted.
 Print Assumptions finally_nested_break_value_refuted.
 Print Assumptions caught_throw_stale_value_refuted.
 Print Assumptions nested_branch_loses_value_refuted.
+Print Assumptions branch_in_breaking_finally_refuted.
 Print Assumptions uncatchable_runs_nothing.
 Print Assumptions uncatchable_step_runs_nothing.
 Print Assumptions leaveTry_leaveFinally_roundtrip.
